@@ -45,7 +45,7 @@ THEOREMS = {
         "C13_range", "C13_range_default_step", "C13_commas", "C13_dates", "C13_dates_all", "C13_dates_descending",
         "C13_dates_beyond_calendar", "C13_no_traceback", "C13_rejects_date_range", "C13_rejects_malformed_scalar",
         "C13_order_irrelevant", "C13_config_inline", "C13_wiring", "C13_rejects_unknown_flag",
-        "C13_rejects_missing_value", "C13_rejects_range_length", "C13_rejects_nonpositive_T",
+        "C13_rejects_missing_value", "C13_rejects_range_length", "C13_rejects_unknown_bin", "C13_rejects_nonpositive_T",
         "C13_rejects_quantile", "C13_rejects_unknown_axis", "C13_rejects_unknown_aggregator",
         "C13_rejects_bad_file", "C13_rejects_bad_clim", "C13_rejects_missing_config",
         "C13_rejects_vector", "C13_rejects_bad_class", "C13_config_lines", "configTokens_join",
@@ -130,7 +130,7 @@ RULE = ("cli.list (first): the real driver with the real Data on 1-3 generated t
         "whose content is drawn per op (NaNs, all-missing field, smin = smax, negative range, empty threshold list, "
         "obs or fcst absent); cli.defaults: 15 metrics / diagrams covering every kind of threshold requirement x "
         "-r / -q / -type impact / -hist / -x threshold|obs|fcst; cli.dup: same as cli.parse with a repeated flag "
-        "(model correspondence only); cli.bad: one documented rejection per line; cli.badfile: 15 classes of input "
+        "(model correspondence only); cli.bad: one documented rejection per line (incl. -xlim/-ylim/-clim without exactly two values = kind limit-length, -b with an undocumented name and a metric that ignores it = unknown-bin — both accepted by /repo c94a168: known findings with the proposed repair harness/proposed/c13_driver_validation.diff — and unknown -type); cli.badreal: unknown metric / -obs / -fcst field / bin type with ets, hit, freq / -type through the unstubbed verif.driver.run on a real text file, must end in the error exit (implementation-only oracle); cli.badfile: 15 classes of input "
         "file x {first input, second input, -c, -C} x {-m mae, --list-times} on the real Data. An op is non-trivial "
         "if the reply is not ERR/EXC/help/version and (pn) has >= 2 values or (cli) carries >= 1 data/computation "
         "option or a default threshold / quantile list or (cli.list) prints >= 3 lines")
@@ -696,6 +696,17 @@ def gen_bad(rng):
         for s in ["1", "1,2,3", "1:3", "0:10", "5:1", "1,2,3,4"]:
             cases.append(("range-length", ins(base(), [f, s]), {}))
             cases.append(("range-length", ["fa.txt", "-m", "mae", "--config", "k1.cfg"], {"k1.cfg": [f, s]}))
+    # axis / colour limits: "the two values lower,upper" (AUDIT4 C13; /repo c94a168 has no such check: finding,
+    # proposed repair harness/proposed/c13_driver_validation.diff)
+    for f in ["-xlim", "-ylim", "-clim"]:
+        for s in ["1", "1,2,3", "1:3", "0:10"]:
+            cases.append(("limit-length", ins(base(), [f, s]), {}))
+    # -b: a name that is not one of the eight documented bin types, with a metric that does not use it
+    for s in ["bogus", "Below", "above==", "with"]:
+        cases.append(("unknown-bin", ins(base(), ["-b", s]), {}))
+    # -type: not one of plot|text|csv|map|rank|maprank|impact|mapimpact
+    for s in ["bogus", "CSV", "plots"]:
+        cases.append(("unknown-type", ins(base(), ["-type", s]), {}))
     for s in ["0", "-1", "-24"]:
         cases.append(("nonpositive-T", ins(base(), ["-T", s]), {}))
         cases.append(("nonpositive-T", ["fa.txt", "-m", "mae", "--config", "k1.cfg"], {"k1.cfg": ["-T", s]}))
@@ -1961,3 +1972,97 @@ def extra_evidence(rows):
                                    "multi_line_config": sum(1 for r in rows if "|^" in r["op"] or "~^" in r["op"]),
                                    "with_dataset_content": sum(1 for r in rows if " D=" in r["op"]),
                                    "listings": lists, "bad_file_classes": classes}}
+
+
+# ----------------------------------------------------------------------------------------------
+# cli.badreal: unknown names that are rejected only at run time, by the REAL Data / output classes (AUDIT4 C13):
+# unknown metric (-m bogus: read as a field name, "<file> does not contain 'bogus'"), unknown field (-obs / -fcst
+# bogus), unknown bin type with a metric that uses it (-m ets -r 1 -b bogus: "Unrecognized bintype"), unknown -type.
+# Nothing is stubbed: verif.driver.run on a real text file, -type csv.  Oracle: the run must end in the error exit
+# (SystemExit with a non-zero code), not in a table and not in a traceback.  Implementation-only (the argument-loop
+# model stops at the call of the output's entry point; the missing-field error itself is C01's / Model/Data's).
+_REAL_FILE = ("date hour leadtime location lat lon altitude obs fcst p1 q0.5\n"
+              "20120101 0 0 1 40 10 100 1 2 0.5 1.5\n20120101 0 6 1 40 10 100 2 2 0.3 1.0\n"
+              "20120102 0 0 1 40 10 100 3 1 0.1 2.0\n20120102 0 6 1 40 10 100 0 1 0.9 3.0\n")
+_REAL_CASES = (
+    [("unknown-metric", ["-m", m]) for m in ("bogus", "MAE", "maee", "rmse2")] +
+    [("unknown-field", ["-m", "mae", f, n]) for f in ("-obs", "-fcst") for n in ("bogus", "Obs", "p2", "q0.9")] +
+    [("unknown-bin", ["-m", m, "-r", "1", "-b", b]) for m in ("ets", "hit", "freq") for b in ("bogus", "Below")] +
+    [("unknown-type", ["-m", "mae", "-type", t]) for t in ("bogus", "CSV")])
+
+
+def _gen_badreal():
+    for kind, toks in _REAL_CASES:
+        tail = [] if "-type" in toks else ["-type", "csv"]
+        yield "cli.badreal", "realbad %s A=%s" % (kind, "|".join(["a.txt"] + toks + tail))
+
+
+def _impl_badreal(op):
+    import shutil
+    import tempfile
+    import warnings
+    import verif.driver
+    toks = op.split(" ")[2][2:].split("|")
+    d = tempfile.mkdtemp(prefix="verifc13real")
+    cwd = os.getcwd()
+    buf = io.StringIO()
+    try:
+        with open(os.path.join(d, "a.txt"), "w") as fh:
+            fh.write(_REAL_FILE)
+        os.chdir(d)
+        try:
+            with contextlib.redirect_stdout(buf), contextlib.redirect_stderr(io.StringIO()), \
+                    np.errstate(all="ignore"), warnings.catch_warnings():
+                warnings.simplefilter("ignore")
+                verif.driver.run(["verif"] + toks)
+        except SystemExit as e:
+            return "ERR" if e.code not in (0, None) else "EXIT0"
+        return "OK:" + buf.getvalue().strip().replace("\n", "/").replace(" ", "+")[:120]
+    finally:
+        os.chdir(cwd)
+        shutil.rmtree(d, ignore_errors=True)
+
+
+_gen_ops_b, _impl_b, _judge_b, _cmp_b, _spec_op_b, _nontrivial_b = \
+    gen_ops, impl, judge, cmp, globals().get("spec_op"), globals().get("nontrivial")
+
+
+def gen_ops(tier, rng):
+    for s in _gen_ops_b(tier, rng):
+        yield s
+    for s in _gen_badreal():
+        yield s
+
+
+def impl(op):
+    return _impl_badreal(op) if op.startswith("realbad ") else _impl_b(op)
+
+
+def cmp(op, impl_out, model_out):
+    return True if op.startswith("realbad ") else _cmp_b(op, impl_out, model_out)
+
+
+def spec_op(op):
+    if op.startswith("realbad ") or _spec_op_b is None:
+        return None
+    return _spec_op_b(op)
+
+
+def judge(op, impl_out, spec_out):
+    if op.startswith("realbad "):
+        a = op.split(" ")
+        line = "verif " + " ".join(a[2][2:].split("|"))
+        if impl_out == "ERR":
+            return None
+        if impl_out.startswith("EXC:"):
+            return ({"kind": "malformed-raises", "exc": impl_out[4:], "site": "real:" + a[1]},
+                    "`%s` (%s) ends in an unhandled %s instead of an error message" % (line, a[1], impl_out[4:]))
+        return ({"kind": "not-rejected", "site": "real:" + a[1]},
+                "`%s` (%s) is not rejected: %s" % (line, a[1], impl_out[:200]))
+    return _judge_b(op, impl_out, spec_out)
+
+
+def nontrivial(op, out):
+    if op.startswith("realbad "):
+        return out == "ERR"
+    return _nontrivial_b(op, out) if _nontrivial_b is not None else True
